@@ -39,6 +39,9 @@ type BTField struct {
 	Words  []string `json:"words"`
 	Casing int      `json:"casing"` // casing the tag is written in; -1 = no dials tag
 	Where  string   `json:"where"`  // root | nested | pnested
+	// Sibling: another tag with the very same name text is written BEFORE the
+	// dials tag (yaml:"x" dials:"x"); it is none of the wrapper's business
+	Sibling bool `json:"sibling,omitempty"`
 }
 
 type C20TagCase struct {
@@ -67,6 +70,7 @@ func genC20Tag(t *rapid.T) C20TagCase {
 		default:
 			f.Casing = rapid.IntRange(0, len(tagCasings)-1).Draw(t, "casing")
 		}
+		f.Sibling = f.Casing >= 0 && rapid.IntRange(0, 2).Draw(t, "sibling") == 0
 		c.Fields = append(c.Fields, f)
 	}
 	return c
@@ -102,6 +106,7 @@ func runC20Tag(c C20TagCase) (verdict vrt.Verdict) {
 	var root, nested, pnested []reflect.StructField
 	var wantErr error
 	var badTag string
+	siblings := map[string]string{} // Go field name -> the sibling tag's text, which must survive untouched
 	type exp struct{ path, key string }
 	var expects []exp
 	for i, f := range c.Fields {
@@ -118,6 +123,10 @@ func runC20Tag(c C20TagCase) (verdict vrt.Verdict) {
 		if f.Casing >= 0 {
 			tag := tagCasings[f.Casing].enc(f.Words)
 			sf.Tag = reflect.StructTag(fmt.Sprintf(`dials:"%s"`, tag))
+			if f.Sibling {
+				sf.Tag = reflect.StructTag(fmt.Sprintf(`yaml:"%s" dials:"%s"`, tag, tag))
+				siblings[sf.Name] = tag
+			}
 			w, err := dec.dec(tag)
 			if err != nil && wantErr == nil {
 				wantErr, badTag = err, tag
@@ -211,6 +220,9 @@ func runC20Tag(c C20TagCase) (verdict vrt.Verdict) {
 		if !ok {
 			return vrt.KeyedViolationf("field-lost", "field %s is missing from the type handed to the wrapped source / decoder", e.path)
 		}
+		if want, has := siblings[sf.Name]; has && sf.Tag.Get("yaml") != want {
+			return vrt.KeyedViolationf("sibling-tag-rewritten", "field %s: the yaml tag written next to the dials tag was %q and is %q in the type handed down", e.path, want, sf.Tag.Get("yaml"))
+		}
 		if got := sf.Tag.Get("dials"); got != e.key {
 			return vrt.KeyedViolationf("wrong-key", "field %s: the type handed down has dials tag %q, want %q (%s re-encoded as %s)", e.path, got, e.key, dec.name, enc.name)
 		}
@@ -221,7 +233,7 @@ func runC20Tag(c C20TagCase) (verdict vrt.Verdict) {
 func TestC20BadTag(t *testing.T) {
 	vrt.Check(t, vrt.Prop[C20TagCase]{
 		ID: "C20", Name: "badtag",
-		Rule: "reflect-built config types with 1..4 string fields at the root, in a nested struct or behind a pointer to one, each untagged or carrying a dials tag of 1..3 words written in one of five casings, behind the tag-reformatting wrapper told to expect one of the five casings, through three entry points (NewTransformingSource, ReformatDialsTagSource, NewTransformingDecoder); " +
+		Rule: "reflect-built config types with 1..4 string fields at the root, in a nested struct or behind a pointer to one, each untagged or carrying a dials tag of 1..3 words written in one of five casings (a third of them preceded by a yaml tag with the same text, which must stay as written), behind the tag-reformatting wrapper told to expect one of the five casings, through three entry points (NewTransformingSource, ReformatDialsTagSource, NewTransformingDecoder); " +
 			"oracle: if the announced casing's decoder rejects any tag, the wrapper's Value / Decode returns an error and never calls the wrapped source / decoder; otherwise it returns nil, calls it, and the type handed down carries for every field the tag (or Go name) re-encoded in the target casing; " +
 			"non-trivial = a rejected tag, or at least two fields; distinct = distinct case JSON",
 		Assumptions: []string{"whether a tag is valid in a casing is read off the library's own casing decoder (C19 checks those); this check is about the wrapper propagating that verdict"},
